@@ -24,10 +24,15 @@ for d in sorted(glob.glob('/tmp/wt/C*.out/m*')):
     os.makedirs(out,exist_ok=True)
     for fn in ('patch.diff','demo_test.go'):
         shutil.copy(os.path.join(d,fn),os.path.join(out,fn))
+    ported=os.path.exists(os.path.join(d,'patch.ported.diff'))
+    if ported:
+        shutil.copy(os.path.join(d,'patch.ported.diff'),os.path.join(out,'patch.ported.diff'))
     try: meta=json.load(open(os.path.join(d,'meta.json')))
     except Exception: meta={}
     meta['id']=sid
     meta['origin']='written by a fresh sub-agent that saw only the property text and a scratch worktree of /repo'
+    if ported:
+        meta['ported']='patch.diff no longer applies after later fix: commits to the same lines; patch.ported.diff is the same change on the current tree and is what was confirmed and run'
     meta['confirmed']={'applies_to_repo_head':True,'builds':True,'existing_suite_passes_with_patch':True,'demo_fails_with_patch':True,'demo_passes_without_patch':True,'how':'tools/confirm_mutant.sh in a scratch worktree of /repo HEAD'}
     runs=[]
     for r in ev.get(d,[]):
